@@ -68,8 +68,18 @@ EVENTS = ["timer", "complete", "stop", "start"]
 
 
 def run_loop(ch, kind, depth, period_ms=1000.0):
+    """kind: sync | coro | sync-td | coro-td (the -td kinds pass the period as a timedelta of 2.5 ms)."""
+    import datetime
     from tornado.ioloop import PeriodicCallback
+    td = kind.endswith("-td")
+    kind = kind.split("-")[0]
+    if td:
+        period_ms = 2.5
+    p = period_ms / 1000.0
     with World() as w:
+        origins = []       # times of start(): the grid of the runs that follow is origin + k * period
+        overrun = [0]
+        run_origin = []    # for every run: the time of the start() call it belongs to
         runs = []          # (start_time, id)
         active = []        # pending futures of running invocations
         overlaps = []
@@ -78,11 +88,16 @@ def run_loop(ch, kind, depth, period_ms=1000.0):
 
         def sync_cb():
             runs.append(w.loop.vtime)
+            run_origin.append(origins[-1])
             if st["stopped_at"] is not None:
                 after_stop.append(w.loop.vtime)
+            if overrun[0] < 1 and ch.choose(2, "callback-takes-1.5-periods") == 1:
+                overrun[0] += 1
+                w.loop.vtime += 1.5 * p          # the invocation itself takes longer than a period
 
         def coro_cb():
             runs.append(w.loop.vtime)
+            run_origin.append(origins[-1])
             if st["stopped_at"] is not None:
                 after_stop.append(w.loop.vtime)
             if any(not f.done() for f in active):
@@ -90,7 +105,9 @@ def run_loop(ch, kind, depth, period_ms=1000.0):
             f = asyncio.Future()
             active.append(f)
             return f
-        pc = PeriodicCallback(sync_cb if kind == "sync" else coro_cb, period_ms)
+        pc = PeriodicCallback(sync_cb if kind == "sync" else coro_cb,
+                              datetime.timedelta(microseconds=2500) if td else period_ms)
+        origins.append(w.loop.vtime)
         pc.start()
         w.pump()
         trace = []
@@ -103,6 +120,8 @@ def run_loop(ch, kind, depth, period_ms=1000.0):
             en.append("stop" if pc.is_running() else "start")
             if pc.is_running() and kind != "sync" and any(not f.done() for f in active):
                 en.append("stop+start")
+            if kind != "sync" and any(not f.done() for f in active) and overrun[0] < 2:
+                en.append("advance")         # 1.5 periods pass while the invocation is still running
             ev = en[ch.choose(len(en), "event")]
             trace.append(ev)
             if ev == "timer":
@@ -115,13 +134,18 @@ def run_loop(ch, kind, depth, period_ms=1000.0):
                 st["stopped_at"] = w.loop.vtime
             elif ev == "start":
                 st["stopped_at"] = None
+                origins.append(w.loop.vtime)
                 pc.start()
+            elif ev == "advance":
+                overrun[0] += 1
+                w.advance(1.5 * p)
             else:
                 pc.stop()
+                origins.append(w.loop.vtime)
                 pc.start()
             w.pump()
         ntimers = len(w.loop.timers())
-        return {"trace": trace, "runs": runs, "overlaps": overlaps, "after_stop": after_stop, "timers": ntimers,
+        return {"period": p, "origins": origins, "run_origin": run_origin, "trace": trace, "runs": runs, "overlaps": overlaps, "after_stop": after_stop, "timers": ntimers,
                 "running": pc.is_running(), "pending": sum(1 for f in active if not f.done()),
                 "errs": [str(c.get("message"))[:80] for c in w.loop_errors()],
                 "logs": [(r[1], r[2][:60]) for r in w.logs.records if r[1] in ("ERROR", "CRITICAL")]}
@@ -145,6 +169,14 @@ def judge_loop(o):
     for a, b in zip(o["runs"], o["runs"][1:]):
         if b < a:
             bad.append(("runs-out-of-order", repr(o["runs"])))
+    p = o["period"]
+    tol = 2e-6 / p           # the loop clock is an epoch-scale float: a microsecond of rounding
+    for t, origin in zip(o["runs"], o["run_origin"]):
+        k = (t - origin) / p
+        if k < 1 - tol or abs(k - round(k)) > tol:
+            bad.append(("run-off-grid", "callback ran at t=%r; the grid is %r + k * %r (k = %r); runs %r, start() at %r"
+                        % (t, origin, p, k, o["runs"], o["origins"])))
+            break
     if o["errs"]:
         bad.append(("loop-exception", repr(o["errs"][:1])))
     if o["logs"]:
@@ -160,10 +192,11 @@ class C39(Check):
             "exactly representable (period, start) pairs (exact invariants) and 6 epoch-scale pairs incl. a 1 microsecond "
             "period (tolerance 4 ulp); (b) sync and coroutine callbacks on the real IOLoop with a virtual clock, every "
             "sequence of <= D events from {fire timer, complete the running invocation, stop, start, stop+start while "
-            "running}; state = one sequence / schedule; non-trivial = sequences containing a late, early or restart step")
+            "running, 1.5 periods pass during an invocation}, period 1000 ms and timedelta(2.5 ms); state = one sequence / schedule; non-trivial = sequences containing a late, early or restart step")
     claim = ("Every scheduled time is later than the previous one, on the grid start + k*period, not before the current "
              "time and (clock monotone) at most one period ahead; a coroutine callback is never started while the previous "
-             "invocation runs, nothing runs after stop(), and one PeriodicCallback never has two timer chains.")
+             "invocation runs, nothing runs after stop(), one PeriodicCallback never has two timer chains, and every "
+             "invocation starts on the grid start() + k * period (also after an invocation that overran its period).")
     technique = "exhaustive enumeration of clock-reading sequences on the real code + exhaustive depth-bounded event-schedule exploration"
     assumptions = ["readings are taken relative to the scheduled time because the loop never fires a timeout before its deadline"]
 
@@ -172,6 +205,7 @@ class C39(Check):
         D = 6 if tier == "quick" else 8
         parts = [("upd", i, ex, K) for ex in (True, False) for i in range(len(EXACT) if ex else len(EPOCHS))]
         parts += [("loop", kind, D) for kind in ("sync", "coro")]
+        parts += [("loop", kind, D - 2) for kind in ("sync-td", "coro-td")]
         return parts
 
     def run_partition(self, part, tier, st):
